@@ -334,6 +334,7 @@ func run(c *hx.Ctx) error {
 	if err := straightLine(c); err != nil {
 		return err
 	}
+	deferStream(c)
 	if built < nTemplates/2 {
 		return fmt.Errorf("only %d of %d generated templates build — generator is broken", built, nTemplates)
 	}
@@ -430,4 +431,88 @@ func straightLine(c *hx.Ctx) error {
 		}
 	}
 	return nil
+}
+
+
+// deferStream: templates that defer a self-protecting macro (its own `defer func(){ recover() }()`)
+// which writes — directly, through a show, or through a nested render. With a writer that keeps
+// failing from its k-th call on, a failure in the BODY (k within the body's writes) is never
+// recovered by the template: the deferred macro runs while panicking, its own write fails too and
+// it recovers only that second panic, as in Go. Run must return E. (A failure that first happens
+// inside the deferred macro is recovered by the template itself: the property exempts it.)
+func deferStream(c *hx.Ctx) {
+	res := c.Res
+	decl := native.Declarations{"s": (*string)(nil), "n": (*int)(nil)}
+	bodies := []string{`<h1>{{ s }}</h1>`, `text{{ n }}`, `<p title="{{ s }}">x</p>{{ render "p.html" }}`, `{% for i := 0; i < 3; i++ %}{{ i }},{% end %}`, `{% if n > 0 %}a{{ s }}{% else %}b{% end %}tail`}
+	footers := []string{`<footer>{{ n }}</footer>`, `{{ render "footer.html" }}`, `plain`, `{{ s }}{{ render "footer.html" }}`}
+	protects := []string{`{% defer func() { recover() }() %}`, `{% defer func() { _ = recover() }() %}`}
+	nested := []bool{false, true}
+	count := 0
+	for _, body := range bodies {
+		for _, foot := range footers {
+			for _, prot := range protects {
+				for _, nest := range nested {
+					count++
+					if c.Quick() && count%2 == int(c.Seed%2) {
+						continue
+					}
+					macro := `{% macro Footer %}` + prot + foot + `{% end %}`
+					deferStmt := `{% defer Footer() %}`
+					if nest { // the cleanup is deferred from inside another macro that writes the body
+						macro += `{% macro Body %}` + deferStmt + body + `{% end %}`
+					}
+					mk := func(withDefer bool) scriggo.Files {
+						src := macro
+						if nest {
+							if !withDefer {
+								src = strings.Replace(src, deferStmt, "", 1)
+							}
+							src += `{{ Body() }}`
+						} else {
+							if withDefer {
+								src += deferStmt
+							}
+							src += body
+						}
+						return scriggo.Files{"index.html": []byte(src), "footer.html": []byte(`<em>{{ n }}</em>`), "p.html": []byte(`<i>{{ s }}</i>`)}
+					}
+					vars := map[string]any{"s": randString(c.R, 8), "n": 1 + c.R.Intn(50)}
+					opts := &scriggo.BuildOptions{Globals: decl}
+					with, err1 := scriggo.BuildTemplate(mk(true), "index.html", opts)
+					without, err2 := scriggo.BuildTemplate(mk(false), "index.html", opts)
+					if err1 != nil || err2 != nil {
+						res.Hist("defer:build-error")
+						if res.Histogram["defer:build-error"] <= 2 {
+							res.Notes = append(res.Notes, fmt.Sprintf("defer stream template does not build: %v %v", err1, err2))
+						}
+						continue
+					}
+					rb := &recWriter{}
+					if err, p := runWith(without, rb, vars); err != nil || p != nil {
+						continue
+					}
+					bodyWrites := len(rb.chunks)
+					res.Hist("defer:templates")
+					human := string(mk(true)["index.html"])
+					for k := 1; k <= bodyWrites; k++ {
+						fw := &failWriter{k: k}
+						err, panicked := runWith(with, fw, vars)
+						res.Count(fmt.Sprintf("defer:%s#%d", human, k), true)
+						clause := ""
+						switch {
+						case panicked != nil:
+							clause = "host-panics"
+						case err != errE:
+							clause = "unrecovered-body-failure-not-returned"
+						}
+						if clause != "" {
+							res.AddBreak(proto.Break{Kind: "property", Name: clause, Case: fmt.Sprintf("C13 defer-template k=%d", k),
+								Human: fmt.Sprintf("writer failing from call %d on (body makes %d writes); Run returned %v, host panic %v\n--- index.html ---\n%s\nvars s=%q n=%v", k, bodyWrites, err, panicked, human, vars["s"], vars["n"]),
+								Impl: fmt.Sprint(err), Model: errE.Error()})
+						}
+					}
+				}
+			}
+		}
+	}
 }
